@@ -108,6 +108,10 @@ def _vec(rng, lo, hi):
 
 def _stiffness(rng):
     r = rng.random()
+    if r < 0.15:  # other unit systems / very soft or very stiff rods (a hair has EI ~ 1e-8 N m^2, a fibre 1e-10)
+        s = float(10.0 ** rng.uniform(-12, -6)) if rng.random() < 0.6 else float(10.0 ** rng.uniform(7, 12))
+        return s * rng.uniform(1, 10, size=3), "stiff:tiny" if s < 1 else "stiff:huge"
+    r = (r - 0.15) / 0.85
     if r < 0.4:  # comparable magnitudes
         s = loguniform(rng, 1e-3, 1e5)
         return s * rng.uniform(1, 10, size=3), "stiff:comparable"
